@@ -10,6 +10,10 @@ NOT_APPLICABLE = {
 
 # id -> (engine, level category, level text, level note, technique, design_ref)
 CHECKS = {
+    "C39": ("StepExec", "exploration",
+            "Sequential StepExec simulation of 2-4 real p2panda-spaces TestPeers over their SQLite stores: seeded histories of space creation, member add / remove, group operations, key-bundle publication (with clock jumps), application messages and repairs; every message is delivered to every other peer in causal / per-author order, then re-delivered a second time at a seeded later point (also to its author); a Byzantine peer forges properly signed messages of all five SpacesArgs variants with arbitrary contents (promote / demote, unknown groups, wrong-kind or missing dependencies, replayed direct messages, garbled ciphertexts, invalid / expired / foreign key bundles, SpaceUpdate). Second processing must emit no event and leave the canonicalised stored auth and space state unchanged; every process() call returns Ok or Err — a panic is a violation.",
+            "Delivery order respects SpacesArgs::dependencies() and per-author log order, as the crate's tests do and backlink validation upstream guarantees. Panics in local API calls or queries are outside the property (counted as probes).",
+            "deterministic simulation with fault injection: duplicate delivery and Byzantine messages against stored-state snapshots", "§4 C39"),
     "C16": ("StepExec+DES", "exploration",
             "Two-phase simulation: under StepExec the real AddressBook (SQLite), a harness probe manager actor and the real Gossip hand out one GossipHandle through the slow path; under DES the real EphemeralStreamPublisher / EphemeralStreamSubscription run over it while the harness plays the overlay: reorder, duplicate, burst beyond the broadcast capacity (Lagged), bit flips, re-signing by another key under the original author, replaced author / body / timestamp, wrong version, undecodable frames, outsider republish; the wall-clock seam freezes and jumps back / forward between publishes. Every published frame must verify for its publisher with strictly increasing (timestamp, logical) and be byte-distinct; every yielded message must be exactly the authentic frame that poll consumed; invalid frames are never yielded.",
             "Needs hooks H4 and H3b. The overlay (iroh-gossip) is the harness; the publisher's OperationForge is built over a lazily connecting pool (only its signing key is used on this path).",
